@@ -60,6 +60,10 @@ async def run_scenario(sc):
                 # warm-up: run discovery before the stepping clock is installed
                 from puresnmp.pdu import GetRequest, PDUContent
                 await c.mpm.encode(1, c.credentials, b"", b"", GetRequest(PDUContent(1, [])))
+        if sc.get("engine_change"):
+            # the agent is replaced / reset between discovery and the request: it answers the request with an unknownEngineID
+            # Report; whatever the client does next (give up, or discover again and repeat), ids must still be checked
+            ag.engine = b"\x80\x00\x1f\x88\x80neweng01"
         # every request-id generation is one read of the stepping clock
         _ck = Clock(sc.get("t0", 1000), sc.get("ticks"), events)
         _clk = patched_clock(None, request_id=_ck)
@@ -82,6 +86,9 @@ async def run_scenario(sc):
                 n = min(req["f1"], len(req["vbs"]))
                 limit = n + req["f2"] * (len(req["vbs"]) - n)
                 f["vbs"] = f["vbs"] + [(conc([9, 9]), enc_abs(["Integer", 99]))] * (limit + 1 - len(f["vbs"]))
+            elif pert == "set_other":
+                # the agent confirms other values than the ones supplied (normalised / clamped on write, or another type)
+                f["vbs"] = [(o, enc_abs(["OctetString", 200 + i]) if i % 2 else enc_abs(["Integer", 100 + i])) for i, (o, _) in enumerate(f["vbs"])]
             elif pert == "id_plus":
                 f["reqid"] += 1
             elif pert == "id_minus":
@@ -96,6 +103,10 @@ async def run_scenario(sc):
                 f["reqid"] = -f["reqid"] if f["reqid"] else 1
             elif pert == "id_p64":
                 f["reqid"] += 2 ** 64
+            if pert.startswith("id_") and sc.get("es"):
+                # C07: an error response carrying another request-id is not the answer to this request
+                f["es"], f["ei"] = sc["es"], sc.get("ei", 0)
+                f["vbs"] = [(o, NULL) for o, _, _ in req["vbs"]]
             elif pert == "wrong_comm":
                 f["community"] = sc.get("wrong_comm", "private").encode()
             elif pert == "wrong_ver":
@@ -143,7 +154,90 @@ async def run_scenario(sc):
     return dict(scenario=sc, events=events)
 
 
+async def run_overlap(sc):
+    """Two operations in flight on ONE client: A is sent at clock t and held by the network, B is sent at t+dt and answered at
+    once, then A's answer is delivered - conformant, or carrying B's request-id ("swap").  -> two traces (one per operation) in
+    the event format of run_scenario, judged by the same monitor."""
+    proto = sc.get("proto", "v2c")
+    ag = make_agent({conc(o): enc_abs(v) for o, v in sc["db"]}, proto)
+    evs = {"A": [], "B": []}
+    ids = {}
+    gate = asyncio.Event()
+    tick = [sc.get("t0", 1000)]
+    which_of = {tuple(map(tuple, sc["oids"])): "A", tuple(map(tuple, sc["oidsB"])): "B"}
+    cur = {}
+
+    def on_request(req):
+        kind = KIND.get(req["ptype"], "other")
+        w = which_of.get(tuple(tuple(absoid(o)) for o, _, _ in req["vbs"]), "A")
+        cur["w"] = w
+        ids[w] = req["reqid"]
+        evs[w].append(dict(e="req", kind=kind, reqid=str(req["reqid"]), oids=[absoid(o) for o, _, _ in req["vbs"]],
+                           vals=[abs_enc(t, cc) for _, t, cc in req["vbs"]], nonrep=0, maxrep=0, es=req["f1"], ei=req["f2"],
+                           ver={0: "v1", 1: "v2c", 3: "v3"}[req["version"]]))
+
+    def perturb(req, f):
+        if cur["w"] == "A" and sc.get("perturb") == "swap" and "B" in ids:
+            f["reqid"] = ids["B"]
+        return f
+
+    def on_reply(req, f):
+        evs[cur["w"]].append(dict(e="resp", reqid=str(f["reqid"]), es=f["es"], ei=f["ei"],
+                                  vbs=[[absoid(o), abs_enc(v[0], v[dec_tlv(v)[1]:dec_tlv(v)[2]])] for o, v in f["vbs"]], commok=True, verok=True))
+    ag.on_request, ag.on_reply = on_request, on_reply
+
+    async def sender(endpoint, packet, timeout=None, retries=None):
+        pk = bytes(packet)
+        first = not cur.get("held")
+        if first and ag.ndisco_done:
+            cur["held"] = True
+            await gate.wait()                  # A's datagram is in flight while B runs
+        ag.perturb = perturb if ag.ndisco_done else None
+        return ag.handle(pk)
+    ag.ndisco_done = not proto.startswith("v3")
+    c = make_client(ag, proto, sender=sender)
+    import puresnmp.api.raw, puresnmp_plugins.security.usm  # noqa
+    if proto.startswith("v3"):
+        from puresnmp.pdu import GetRequest, PDUContent
+        await c.mpm.encode(1, c.credentials, b"", b"", GetRequest(PDUContent(1, [])))
+        ag.ndisco_done = True
+
+    def clock():
+        v = tick[0]
+        return v
+
+    async def one(w, op, oids_abs):
+        oids = [OID(oidstr(conc(o))) for o in oids_abs]
+        evs[w].append(dict(e="call", op=op, oids=oids_abs, nr=0, mr=0, vals=[]))
+        try:
+            r = await (c.get(oids[0]) if op == "get" else c.getnext(oids[0]) if op == "getnext" else c.multiget(oids))
+            evs[w].append(dict(e="ret", kind="result", cls="", snmp=False, status=0, oid=[], data=abs_result(op, r)))
+        except Exception as ex:  # noqa
+            st = getattr(ex, "error_status", 0)
+            oo = getattr(ex, "offending_oid", None)
+            evs[w].append(dict(e="ret", kind="exc", cls=exc_name(ex), snmp=is_snmp_error(ex), status=st if isinstance(st, int) else 0,
+                               oid=absoid(oo.nodes) if oo is not None and len(oo.nodes) > 1 else [], data=[]))
+    with patched_clock(None, request_id=clock):
+        ta = asyncio.ensure_future(one("A", sc["op"], sc["oids"]))
+        for _ in range(20):
+            await asyncio.sleep(0)
+            if cur.get("held"):
+                break
+        tick[0] += sc.get("dt", 1)
+        await one("B", sc["opB"], sc["oidsB"])
+        gate.set()
+        await ta
+    return [dict(scenario=dict(sc, overlap="A"), events=evs["A"]),
+            dict(scenario=dict(sc, overlap="B", op=sc["opB"], oids=sc["oidsB"], perturb="none"), events=evs["B"])]
+
+
 def run_all(scenarios):
     async def main():
-        return [await run_scenario(sc) for sc in scenarios]
+        out = []
+        for sc in scenarios:
+            if sc.get("oidsB"):
+                out.extend(await run_overlap(sc))
+            else:
+                out.append(await run_scenario(sc))
+        return out
     return asyncio.run(main())
